@@ -268,6 +268,25 @@ Fixpoint eval_stmt (s : stmt) (e : est) {struct s} : option est :=
       end
   | SEpr _ _ => None
   | SFlush => None
+  | SFutAddX a b n o m =>
+      match ev_entry b (IxC n) e with
+      | Some z => if (z <? 0)%Z then None else
+          let k := Z.to_nat z in
+          match ev_entry a (IxC k) e, ev_src o e with
+          | Some v, Some w => match ev_sum v w m with Some s => ev_store a (IxC k) s e | None => None end
+          | _, _ => None
+          end
+      | None => None
+      end
+  | SMeasFutX q ip a b n =>
+      match ev_measure q ip e with
+      | Some (o, e1) =>
+          match ev_entry b (IxC n) e1 with
+          | Some z => if (z <? 0)%Z then None else ev_store a (IxC (Z.to_nat z)) o e1
+          | None => None
+          end
+      | None => None
+      end
   end
 with eval_block (b : block) (e : est) {struct b} : option est :=
   match b with
